@@ -5,17 +5,17 @@ import (
 	"fmt"
 	"strings"
 	"sync"
-	"sync/atomic"
-	"time"
 
 	"github.com/innovationb1ue/RedisGO/config"
 	"github.com/innovationb1ue/RedisGO/server"
 )
 
 // bigmulti (C13, C05, C11): multi-key and multi-member commands with THOUSANDS of arguments, where an implementation is tempted to work in
-// batches.  Two writers MSET the same 1500 keys (in opposite argument order) to a value that names the writer and the round; readers MGET
-// all of them: an atomic MSET means every MGET reply is uniform (all 1500 values from one MSET), and so is the final state.  The same for a set:
-// writers alternate SADD big <2000 members> / DEL big resp. SREM big <the same 2000>; SCARD answers 0 or 2000 only, SMEMBERS lists none or all.
+// batches.  Sixty duels: two clients MSET the same 1500 keys at the same moment (opposite argument order), each to a value naming the client
+// and the duel; when both have returned (nobody is writing) the keys are read: MSET is atomic, so all 1500 hold the value of ONE of the two
+// (whichever came second).  The same for a set: SADD big <2000 members> against DEL big started together; afterwards SCARD is 0 or 2000, and
+// while they run a third client's SCARD (one key, one lock: atomic) answers 0 or 2000 only.
+// (An MGET issued WHILE the MSETs run may legitimately show a mixture: MGET reads key by key - Props/C13PerKey.lean - so it is not used as the observer.)
 // Added after the seeded changes C13-mset-batches-512 and C11-sadd-srem-batches-512 (work split into slices of 512 under separate lock
 // acquisitions): the lock-skeleton fact F2 broke, but no engine produced a failing input because no generated command had more than a dozen arguments.
 func bigMulti(seed int64, rounds int, want map[string]bool, enc *json.Encoder) {
@@ -23,7 +23,7 @@ func bigMulti(seed int64, rounds int, want map[string]bool, enc *json.Encoder) {
 		return
 	}
 	for r := 0; r < rounds; r++ {
-		rep := concReport{Scenario: "bigmulti", Seed: seed + int64(r), Goroutines: 6, Shards: []int{1024, 2}[r%2], Result: "ok"}
+		rep := concReport{Scenario: "bigmulti", Seed: seed + int64(r), Goroutines: 3, Shards: []int{1024, 2}[r%2], Result: "ok"}
 		config.Configures.ShardNum = rep.Shards
 		mgr := server.NewManager(config.Configures)
 		const nk, nm = 1500, 2000
@@ -47,103 +47,61 @@ func bigMulti(seed int64, rounds int, want map[string]bool, enc *json.Encoder) {
 			}
 			return a
 		}
-		runCmd(mgr, mset("init", false)...)
-		var bad atomic.Value
-		var ops, reads atomic.Int64
-		stop := make(chan struct{})
-		var wg sync.WaitGroup
-		for g := 0; g < 2; g++ {
-			wg.Add(1)
-			go func(g int) {
-				defer wg.Done()
-				for i := 0; ; i++ {
-					select {
-					case <-stop:
-						return
-					default:
-					}
-					if out, p := runCmd(mgr, mset(fmt.Sprintf("w%d-%d", g, i), g == 1)...); p || out != "+OK\r\n" {
-						bad.CompareAndSwap(nil, fmt.Sprintf("MSET of %d pairs answered %q (panic=%v)", nk, out, p))
-						return
-					}
-					ops.Add(1)
-				}
-			}(g)
-		}
-		wg.Add(1)
-		go func() { // the set writer
-			defer wg.Done()
-			for i := 0; ; i++ {
-				select {
-				case <-stop:
-					return
-				default:
-				}
-				out, p := runCmd(mgr, append([]string{"SADD", "big"}, members...)...)
-				if p || out != fmt.Sprintf(":%d\r\n", nm) {
-					bad.CompareAndSwap(nil, fmt.Sprintf("SADD big <%d members> on a missing key answered %q", nm, out))
-					return
-				}
-				if i%2 == 0 {
-					out, p = runCmd(mgr, "DEL", "big")
-				} else {
-					out, p = runCmd(mgr, append([]string{"SREM", "big"}, members...)...)
-				}
-				if want := map[bool]string{true: ":1\r\n", false: fmt.Sprintf(":%d\r\n", nm)}[i%2 == 0]; p || out != want {
-					bad.CompareAndSwap(nil, fmt.Sprintf("removing the %d members again answered %q, want %q", nm, out, want))
-					return
-				}
-				ops.Add(2)
+		fail := func(kind, msg string) { rep.Result, rep.Detail = kind, msg }
+		for duel := 0; duel < 60 && rep.Result == "ok"; duel++ {
+			var wg sync.WaitGroup
+			start := make(chan struct{})
+			outs := make([]string, 2)
+			for g := 0; g < 2; g++ {
+				wg.Add(1)
+				go func(g int) {
+					defer wg.Done()
+					<-start
+					outs[g], _ = runCmd(mgr, mset(fmt.Sprintf("w%d-%d", g, duel), g == 1)...)
+				}(g)
 			}
-		}()
-		for g := 0; g < 3; g++ {
-			wg.Add(1)
-			go func(g int) {
-				defer wg.Done()
-				for i := 0; i < 40 && bad.Load() == nil; i++ {
-					if (i+g)%2 == 0 {
-						out, p := runCmd(mgr, append([]string{"MGET"}, keys...)...)
-						vals, ok := flatBulks(out)
-						if p || !ok || len(vals) != nk {
-							bad.CompareAndSwap(nil, fmt.Sprintf("MGET of %d keys: panic=%v, %d values", nk, p, len(vals)))
-							return
-						}
-						for j, v := range vals {
-							if v != vals[0] {
-								bad.CompareAndSwap(nil, fmt.Sprintf("MGET of the %d keys two clients MSET as a whole returned %q for %s and %q for %s: a half-applied MSET is visible (MSET is atomic: all its keys change at one point)",
-									nk, vals[0], keys[0], v, keys[j]))
-								return
-							}
-						}
-					} else {
-						out, _ := runCmd(mgr, "SCARD", "big")
-						if out != ":0\r\n" && out != fmt.Sprintf(":%d\r\n", nm) {
-							bad.CompareAndSwap(nil, fmt.Sprintf("SCARD big answered %q while one client alternated SADD big <%d members> and removing them all: only 0 and %d are cardinalities the set ever had", strings.TrimSpace(out), nm, nm))
-							return
-						}
-					}
-					ops.Add(1)
-					reads.Add(1)
-				}
-			}(g)
-		}
-		// the readers finish on their own (40 reads each, or the first bad observation); then the writers are stopped
-		for bad.Load() == nil && reads.Load() < 120 {
-			time.Sleep(time.Millisecond)
-		}
-		close(stop)
-		wg.Wait()
-		rep.Ops = int(ops.Load())
-		if b := bad.Load(); b != nil {
-			rep.Result, rep.Detail = "not-linearizable", b.(string)
-		} else {
+			close(start)
+			wg.Wait()
+			rep.Ops += 2
+			if outs[0] != "+OK\r\n" || outs[1] != "+OK\r\n" {
+				fail("invariant", fmt.Sprintf("MSET of %d pairs answered %q / %q", nk, outs[0], outs[1]))
+				break
+			}
 			out, _ := runCmd(mgr, append([]string{"MGET"}, keys...)...)
-			vals, _ := flatBulks(out)
+			vals, ok := flatBulks(out)
+			if !ok || len(vals) != nk {
+				fail("invariant", fmt.Sprintf("MGET of %d keys returned %d values", nk, len(vals)))
+				break
+			}
 			for j, v := range vals {
 				if v != vals[0] {
-					rep.Result, rep.Detail = "invariant", fmt.Sprintf("at quiescence %s holds %q and %s holds %q: no order of the whole MSETs explains it", keys[0], vals[0], keys[j], v)
+					fail("not-linearizable", fmt.Sprintf("duel %d: two clients ran MSET over the same %d keys at the same moment (values w0-%d and w1-%d); after both returned, %s holds %q and %s holds %q: "+
+						"neither order of the two whole MSETs leaves that (MSET applied to only some of the keys)", duel, nk, duel, duel, keys[0], vals[0], keys[j], v))
 					break
 				}
+			}
+		}
+		for duel := 0; duel < 60 && rep.Result == "ok"; duel++ {
+			var wg sync.WaitGroup
+			start := make(chan struct{})
+			var sadd, del, card string
+			wg.Add(3)
+			go func() {
+				defer wg.Done()
+				<-start
+				sadd, _ = runCmd(mgr, append([]string{"SADD", "big"}, members...)...)
+			}()
+			go func() { defer wg.Done(); <-start; del, _ = runCmd(mgr, "DEL", "big") }()
+			go func() { defer wg.Done(); <-start; card, _ = runCmd(mgr, "SCARD", "big") }()
+			close(start)
+			wg.Wait()
+			rep.Ops += 3
+			final, _ := runCmd(mgr, "SCARD", "big")
+			all := fmt.Sprintf(":%d\r\n", nm)
+			// the set was absent or complete before the duel (checked by the previous round), so SADD adds all or nothing
+			if (sadd != all && sadd != ":0\r\n") || (card != ":0\r\n" && card != all) || (final != ":0\r\n" && final != all) {
+				fail("not-linearizable", fmt.Sprintf("duel %d: SADD big <%d members> (answered %s), DEL big (answered %s) and SCARD big (answered %s) started together; SCARD afterwards %s: "+
+					"only 0 and %d are cardinalities the set has between whole commands", duel, nm, strings.TrimSpace(sadd), strings.TrimSpace(del), strings.TrimSpace(card), strings.TrimSpace(final), nm))
 			}
 		}
 		enc.Encode(rep)
